@@ -6,10 +6,10 @@
 //	           "10.0.<x>.<y>:9000"): FNV-1a is a running hash, so such members share all their ring points. With two
 //	           other members on the ring: EVERY sequence of AddNode / RemoveNode of the two twins of length 1..5
 //	           (thorough 1..6), lookups after every call; then the same sequences with a change of another member
-//	           spliced in and with lookup-free batches. (At least one member that is not a twin stays on the ring: on
-//	           the unchanged tree a twin that lost its points to its sibling gets none back when the sibling leaves —
-//	           a member without a point; if it is the ONLY member left GetNodeBy indexes an empty slice. Reported, not
-//	           generated.)
+//	           spliced in and with lookup-free batches; and EVERY such sequence of length 1..4 (thorough 1..5) with
+//	           the twins ALONE on the ring: a twin that lost its points to its sibling must get them back when the
+//	           sibling leaves — otherwise a member is left without a point and, being the only member, makes
+//	           GetNodeBy index an empty slice ("a lookup on a non-empty ring returns a current member").
 //	names      (K6) member names and keys of the Unicode / byte-pattern classes: BOM-prefixed, full-width forms, U+3000,
 //	           combining sequences next to the precomposed letter, ZWJ / ZWNJ / variation selector / RLM inside, private
 //	           use, Turkish and German case pairs, invalid UTF-8 (a surrogate written as three bytes, lone continuation
@@ -62,8 +62,8 @@ func twinPairs(perFamily, limit int) []twin {
 	return out
 }
 
-// twinCases: every sequence of length n over {+A, +B, -A, -B} after two other members joined.
-func twinCases(rr *hxlib.Rand, p twin, n int, spliced bool) []*kase {
+// twinCases: every sequence of length n over {+A, +B, -A, -B} after two other members joined (alone: on an empty ring).
+func twinCases(rr *hxlib.Rand, p twin, n int, spliced, alone bool) []*kase {
 	var out []*kase
 	alphabet := []op{{Op: "add", Name: p.A}, {Op: "add", Name: p.B}, {Op: "remove", Name: p.A}, {Op: "remove", Name: p.B}}
 	total := 1
@@ -73,6 +73,9 @@ func twinCases(rr *hxlib.Rand, p twin, n int, spliced bool) []*kase {
 	for code := 0; code < total; code++ {
 		c := &kase{KeyFrom: rr.Intn(1000000), KeyCount: 48, ModelKeys: 4, Tag: "twins"}
 		c.Ops = []op{{Op: "add", Name: "gate-1"}, {Op: "add", Name: "gate-2"}}
+		if alone {
+			c.Ops, c.Tag = nil, "twins-alone"
+		}
 		x := code
 		for i := 0; i < n; i++ {
 			c.Ops = append(c.Ops, alphabet[x&3])
@@ -179,6 +182,44 @@ func nameCases(rr *hxlib.Rand) []*kase {
 	return out
 }
 
+// tripleCases: three members lack the same ring points after a removal. "t19837648" shares four replica points with
+// the twins "declinate" / "macallums" (t19837648-0 = declinate-18, -1 = -19, -8 = -10, -9 = -11; found by brute force,
+// verified here). When it leaves, those points belong to nobody and both twins claim them: RemoveNode must hand them
+// out in an order that does not depend on map iteration (the code sorts the names) — otherwise the model, and a
+// repeated run, disagree.
+func tripleCases(rr *hxlib.Rand) []*kase {
+	a, b, x := "declinate", "macallums", "t19837648"
+	if fnv32a(a) != fnv32a(b) || fnv32a(x+"-0") != fnv32a(a+"-18") || fnv32a(x+"-9") != fnv32a(a+"-11") {
+		return nil
+	}
+	var near []string
+	for _, j := range []int{18, 19, 10, 11} {
+		near = append(near, keysBelow(fnv32a(a+"-"+strconv.Itoa(j)), 3)...)
+	}
+	var out []*kase
+	for _, order := range [][]string{{a, b, x}, {b, a, x}, {x, a, b}, {a, x, b}, {b, x, a}, {x, b, a}} {
+		for _, gates := range []int{0, 2} {
+			for _, leave := range []string{x, a, b} {
+				c := &kase{Keys: near, KeyFrom: rr.Intn(1000000), KeyCount: 200, ModelKeys: len(near) + 8, Tag: "triple-claim"}
+				for g := 0; g < gates; g++ {
+					c.Ops = append(c.Ops, op{Op: "add", Name: "gate-" + strconv.Itoa(g+1)})
+				}
+				for _, n := range order {
+					c.Ops = append(c.Ops, op{Op: "add", Name: n})
+				}
+				c.Ops = append(c.Ops, op{Op: "remove", Name: leave})
+				for _, n := range order { // and everybody leaves, one after the other
+					if n != leave {
+						c.Ops = append(c.Ops, op{Op: "remove", Name: n})
+					}
+				}
+				out = append(out, c)
+			}
+		}
+	}
+	return out
+}
+
 // nameLegs runs in every tier. Cost: quick ≈ 1.5 s.
 func nameLegs(r *hxlib.Run) {
 	t0 := time.Now()
@@ -195,7 +236,7 @@ func nameLegs(r *hxlib.Run) {
 			maxLen = r.Scale(5, 6)
 		}
 		for l := 1; l <= maxLen; l++ {
-			for _, c := range twinCases(rr, p, l, false) {
+			for _, c := range twinCases(rr, p, l, false, false) {
 				if n == 0 {
 					r.Sample(c)
 				}
@@ -203,7 +244,13 @@ func nameLegs(r *hxlib.Run) {
 				n++
 			}
 		}
-		for _, c := range twinCases(rr, p, 4, true) {
+		for l := 1; l < maxLen; l++ {
+			for _, c := range twinCases(rr, p, l, false, true) {
+				one(r, c)
+				n++
+			}
+		}
+		for _, c := range twinCases(rr, p, 4, true, false) {
 			one(r, c)
 			n++
 		}
@@ -214,8 +261,16 @@ func nameLegs(r *hxlib.Run) {
 	if len(pairs) == 0 {
 		r.Note("leg twins: no member names with equal FNV-32a found: NOT run")
 	} else {
-		r.Note("leg twins: %d pairs of member names with equal 32-bit FNV-1a (first: %q / %q), %d histories: every add/remove sequence of the two twins up to length %d with two other members present, plus spliced changes of other members and lookup-free batches, %.1fs",
+		r.Note("leg twins: %d pairs of member names with equal 32-bit FNV-1a (first: %q / %q), %d histories: every add/remove sequence of the two twins up to length %d with two other members present and (one shorter) with the twins alone on the ring, plus spliced changes of other members and lookup-free batches, %.1fs",
 			len(pairs), pairs[0].A, pairs[0].B, n, r.Scale(5, 6), time.Since(t0).Seconds())
+	}
+	if tc := tripleCases(r.R.Fork()); len(tc) == 0 {
+		r.Note("leg triple-claim: the hard-wired collision does not hold under FNV-32a: NOT run")
+	} else {
+		for _, c := range tc {
+			one(r, c)
+		}
+		r.Note("leg triple-claim: %d histories in which a leaving member frees ring points that two remaining members (twins) both claim", len(tc))
 	}
 	t0, n = time.Now(), 0
 	for _, c := range nameCases(r.R.Fork()) {
